@@ -17,6 +17,124 @@ static CEILING: AtomicUsize = AtomicUsize::new(8 << 30);
 
 pub const JUNK_FILL_LIMIT: usize = 1 << 20;
 
+// ---------------------------------------------------------------------------------------------
+// Guard mode ("electric fence"): while enabled, every allocation of at least GUARD_MIN bytes is
+// placed in its own mapping so that its last byte is directly followed by an inaccessible page.
+// A read or write one byte past the end of such a block kills the process with SIGSEGV, which
+// the orchestrator attributes to the running seed. Used by the C15 workloads.
+// ---------------------------------------------------------------------------------------------
+
+static GUARD: AtomicU8 = AtomicU8::new(0);
+pub const GUARD_MIN: usize = 4096;
+const PAGE: usize = 4096;
+const REG_SIZE: usize = 1 << 14;
+#[allow(clippy::declare_interior_mutable_const)]
+const REG_ZERO: AtomicUsize = AtomicUsize::new(0);
+static REGISTRY: [AtomicUsize; REG_SIZE] = [REG_ZERO; REG_SIZE];
+static GUARDED_ALLOCS: AtomicU64 = AtomicU64::new(0);
+
+static GUARD_LIVE: AtomicUsize = AtomicUsize::new(0);
+
+pub fn set_guard(on: bool) {
+    GUARD.store(on as u8, Relaxed);
+    if !on && GUARD_LIVE.load(Relaxed) == 0 {
+        // no guarded block is alive: drop the tombstones so that look-ups stay short
+        for r in REGISTRY.iter() {
+            r.store(0, Relaxed);
+        }
+    }
+}
+
+pub fn guarded_allocations() -> u64 {
+    GUARDED_ALLOCS.load(Relaxed)
+}
+
+fn reg_slot(p: usize) -> usize {
+    (p >> 6).wrapping_mul(0x9E37_79B9_7F4A_7C15) >> (64 - 14)
+}
+
+fn reg_insert(p: usize) -> bool {
+    let mut i = reg_slot(p);
+    for _ in 0..REG_SIZE {
+        if REGISTRY[i].compare_exchange(0, p, Relaxed, Relaxed).is_ok() || REGISTRY[i].compare_exchange(1, p, Relaxed, Relaxed).is_ok() {
+            GUARD_LIVE.fetch_add(1, Relaxed);
+            return true;
+        }
+        i = (i + 1) & (REG_SIZE - 1);
+    }
+    false
+}
+
+fn is_guarded(p: usize) -> bool {
+    let mut i = reg_slot(p);
+    for _ in 0..REG_SIZE {
+        let v = REGISTRY[i].load(Relaxed);
+        if v == p {
+            return true;
+        }
+        if v == 0 {
+            return false;
+        }
+        i = (i + 1) & (REG_SIZE - 1);
+    }
+    false
+}
+
+fn reg_remove(p: usize) -> bool {
+    let mut i = reg_slot(p);
+    for _ in 0..REG_SIZE {
+        let v = REGISTRY[i].load(Relaxed);
+        if v == p {
+            // leave a tombstone (1) so that probe chains stay intact
+            REGISTRY[i].store(1, Relaxed);
+            GUARD_LIVE.fetch_sub(1, Relaxed);
+            return true;
+        }
+        if v == 0 {
+            return false;
+        }
+        i = (i + 1) & (REG_SIZE - 1);
+    }
+    false
+}
+
+unsafe fn guard_alloc(layout: Layout) -> *mut u8 {
+    let size = layout.size();
+    let rounded = (size + PAGE - 1) & !(PAGE - 1);
+    let total = rounded + PAGE;
+    let base = libc::mmap(std::ptr::null_mut(), total, libc::PROT_READ | libc::PROT_WRITE, libc::MAP_PRIVATE | libc::MAP_ANONYMOUS, -1, 0);
+    if base == libc::MAP_FAILED {
+        return std::ptr::null_mut();
+    }
+    let base = base as usize;
+    libc::mprotect((base + rounded) as *mut libc::c_void, PAGE, libc::PROT_NONE);
+    // the end of the block abuts the guard page (as closely as the alignment allows)
+    let user = (base + rounded - size) & !(layout.align() - 1);
+    if !reg_insert(user) {
+        libc::munmap(base as *mut libc::c_void, total);
+        return std::ptr::null_mut();
+    }
+    GUARDED_ALLOCS.fetch_add(1, Relaxed);
+    user as *mut u8
+}
+
+unsafe fn guard_dealloc(ptr: *mut u8, layout: Layout) -> bool {
+    let user = ptr as usize;
+    if !reg_remove(user) {
+        return false;
+    }
+    let rounded = (layout.size() + PAGE - 1) & !(PAGE - 1);
+    let base = user & !(PAGE - 1);
+    // `user` lies in the first page of the mapping unless alignment pushed it down, in which
+    // case it is still inside [base_of_mapping, base_of_mapping + PAGE): recompute from the end
+    let end = base + PAGE; // upper bound of the first page containing user
+    let _ = end;
+    let mapping = (user + layout.size() + PAGE - 1) & !(PAGE - 1); // = start of the guard page (rounded up end)
+    let start = mapping - rounded;
+    libc::munmap(start as *mut libc::c_void, rounded + PAGE);
+    true
+}
+
 #[inline]
 fn on_alloc(size: usize) {
     let cur = CUR.fetch_add(size, Relaxed) + size;
@@ -30,6 +148,17 @@ unsafe impl GlobalAlloc for SimAlloc {
         if layout.size() > CEILING.load(Relaxed) {
             LARGEST.fetch_max(layout.size(), Relaxed);
             return std::ptr::null_mut();
+        }
+        if GUARD.load(Relaxed) != 0 && layout.size() >= GUARD_MIN && layout.align() <= PAGE {
+            let p = guard_alloc(layout);
+            if !p.is_null() {
+                on_alloc(layout.size());
+                let j = JUNK.load(Relaxed);
+                if j != 0 && layout.size() <= 2 * JUNK_FILL_LIMIT {
+                    std::ptr::write_bytes(p, j, layout.size());
+                }
+            }
+            return p;
         }
         let p = System.alloc(layout);
         if !p.is_null() {
@@ -54,6 +183,14 @@ unsafe impl GlobalAlloc for SimAlloc {
             LARGEST.fetch_max(layout.size(), Relaxed);
             return std::ptr::null_mut();
         }
+        if GUARD.load(Relaxed) != 0 && layout.size() >= GUARD_MIN && layout.align() <= PAGE {
+            // fresh anonymous mappings are zero-filled
+            let p = guard_alloc(layout);
+            if !p.is_null() {
+                on_alloc(layout.size());
+            }
+            return p;
+        }
         let p = System.alloc_zeroed(layout);
         if !p.is_null() {
             on_alloc(layout.size());
@@ -63,6 +200,9 @@ unsafe impl GlobalAlloc for SimAlloc {
 
     unsafe fn dealloc(&self, ptr: *mut u8, layout: Layout) {
         CUR.fetch_sub(layout.size(), Relaxed);
+        if layout.size() >= GUARD_MIN && guard_dealloc(ptr, layout) {
+            return;
+        }
         System.dealloc(ptr, layout)
     }
 
@@ -70,6 +210,16 @@ unsafe impl GlobalAlloc for SimAlloc {
         if new_size > CEILING.load(Relaxed) {
             LARGEST.fetch_max(new_size, Relaxed);
             return std::ptr::null_mut();
+        }
+        if GUARD.load(Relaxed) != 0 || (layout.size() >= GUARD_MIN && is_guarded(ptr as usize)) {
+            // move: allocate, copy, free (each through the guard-aware paths above)
+            let new_layout = Layout::from_size_align_unchecked(new_size, layout.align());
+            let np = self.alloc(new_layout);
+            if !np.is_null() {
+                std::ptr::copy_nonoverlapping(ptr, np, layout.size().min(new_size));
+                self.dealloc(ptr, layout);
+            }
+            return np;
         }
         let p = System.realloc(ptr, layout, new_size);
         if !p.is_null() {
